@@ -49,6 +49,12 @@ def clock_jump(us):
 
 def alloc_level(level):
     L.verif_alloc_level(int(level))
+    L.verif_alloc_fill(0xCB)        # every run starts from the default garbage pattern
+
+
+def alloc_fill(byte=0xCB):
+    """content of fresh (non-calloc) heap memory handed to librebound from now on: code whose result depends on it reads uninitialised memory"""
+    L.verif_alloc_fill(int(byte))
 
 
 def heap_audit():
@@ -223,6 +229,50 @@ def mask_field(typ, payload):
     if typ == F_VARCONFIG:
         return _mask_ranges(payload, VC.size, VC_PTR_RANGES)
     return payload
+
+
+_DT_PTR = {9: "ptr", 10: "ptr", 16: "fixed", 11: "dp7"}
+_ptr_descs = None
+
+
+class _D(object):
+    __slots__ = ("type", "dtype", "offset", "offset_N", "element_size")
+
+    def __init__(self, *a):
+        self.type, self.dtype, self.offset, self.offset_N, self.element_size = a
+
+
+def A(sim, drop=()):
+    """field-id -> bytes of the LIVE arrays behind every pointer-typed persisted field (read from the simulation's own memory,
+    not through the serialiser), pointer members and padding masked.  A restored / copied / loaded simulation must agree with its
+    source in this view as well: the S view alone cannot see a writer that silently drops part of an array element."""
+    global _ptr_descs
+    if _ptr_descs is None:
+        from rebound.binary_field_descriptor import binary_field_descriptor_list
+        _ptr_descs = [_D(d.type, d.dtype, d.offset, d.offset_N, d.element_size) for d in binary_field_descriptor_list() if d.dtype in _DT_PTR]
+    base = ctypes.addressof(sim)
+    out = {}
+    for d in _ptr_descs:
+        kind = _DT_PTR[d.dtype]
+        if d.type in drop:
+            continue
+        if kind == "fixed":
+            ptr = struct.unpack("<Q", ctypes.string_at(base + d.offset, 8))[0]
+            raw = ctypes.string_at(ptr, d.element_size) if ptr else b""
+        elif kind == "dp7":
+            n = struct.unpack("<I", ctypes.string_at(base + d.offset_N, 4))[0]
+            parts = []
+            for k in range(7):
+                ptr = struct.unpack("<Q", ctypes.string_at(base + d.offset + 8 * k, 8))[0]
+                parts.append(ctypes.string_at(ptr, 8 * n) if (ptr and n) else b"")
+            raw = b"".join(parts)
+        else:
+            ptr = struct.unpack("<Q", ctypes.string_at(base + d.offset, 8))[0]
+            n = struct.unpack("<I", ctypes.string_at(base + d.offset_N, 4))[0]
+            raw = ctypes.string_at(ptr, n * d.element_size) if (ptr and n) else b""
+        if raw:
+            out[d.type] = mask_field(d.type, raw)
+    return out
 
 
 def S(sim, mask=True, drop=()):
